@@ -1,2 +1,47 @@
-From BMC Require Import Base.
-Theorem C15_placeholder : True. Proof. exact I. Qed.
+(* C15 — sensor readings are converted with the specification's formula
+   (exact rational arithmetic; floating-point rounding is outside the proof
+   and compared numerically by the correspondence run). *)
+From Coq Require Import QArith String.
+From BMC Require Import Base Prim PrimProofs Layers Proc SensorProofs.
+From BMCProps Require Import Tie.
+Local Close Scope Q_scope.
+Local Open Scope N_scope.
+
+Theorem C15_formula : forall m b k1 k2 x,
+  (convert_reading m b k1 k2 x == (inject_Z m * inject_Z x + inject_Z b * pow10 k1) * pow10 k2)%Q.
+Proof. exact convert_formula. Qed.
+Theorem C15_pow10 : forall k, (pow10 k * pow10 (- k) == 1)%Q /\ (pow10 (k + 1) == inject_Z 10 * pow10 k)%Q.
+Proof. intros k. split; [apply pow10_inverse|apply pow10_succ]. Qed.
+
+(* flags first (unavailable, then scanning disabled), else the value: x is the raw byte read in the record's
+   analog format as the specification defines it, the lineariser is the record's code *)
+Theorem C15_read : forall r rsp, sr_reading rsp < 256 -> new_sensor_reader r <> RNone ->
+  (read_sensor r (new_sensor_reader r) rsp = Some RdUnavailable <-> sr_unavailable rsp = true) /\
+  (sr_unavailable rsp = false ->
+   (read_sensor r (new_sensor_reader r) rsp = Some RdScanningDisabled <-> sr_scanning rsp = false)) /\
+  (sr_unavailable rsp = false -> sr_scanning rsp = true ->
+   exists x, Spec.interpret (f_format r) (sr_reading rsp) = Some x /\
+     read_sensor r (new_sensor_reader r) rsp =
+       Some (RdValue (convert_reading (f_m r) (f_b r) (f_bexp r) (f_rexp r) x) (f_linearisation r)) /\
+     (convert_reading (f_m r) (f_b r) (f_bexp r) (f_rexp r) x ==
+      (inject_Z (f_m r) * inject_Z x + inject_Z (f_b r) * pow10 (f_bexp r)) * pow10 (f_rexp r))%Q).
+Proof. exact read_flags. Qed.
+
+(* no reader for non-linear sensors (code >= 12) and for records without an analog data format (format 3) *)
+Theorem C15_refuse : forall r, new_sensor_reader r = RNone <-> (12 <= f_linearisation r \/ 3 <= f_format r).
+Proof. exact reader_selection_none. Qed.
+
+(* linearisation code -> Go function, as the source says now; their meaning is the specification's 11-row table *)
+Theorem C15_lineariser_table_tie :
+  G.linearisers = [(1, "LineariserFunc math Log"); (2, "LineariserFunc math Log10"); (3, "LineariserFunc math Log2");
+                   (4, "LineariserFunc math Exp"); (5, "LineariserFunc f float64 float64 math Pow 10 f");
+                   (6, "LineariserFunc math Exp2"); (7, "LineariserFunc f float64 float64 math Pow f - 1");
+                   (8, "LineariserFunc f float64 float64 math Pow f 2"); (9, "LineariserFunc f float64 float64 math Pow f 3");
+                   (10, "LineariserFunc math Sqrt"); (11, "LineariserFunc f float64 float64 math Cbrt f")]%string
+  /\ G.LinearisationLinear = 0 /\ G.LinearisationNonLinear = 12.
+Proof. exact tie_linearisers. Qed.
+Theorem C15_parser_table_tie :
+  G.analog_parsers = [(0, "AnalogDataFormatParserFunc parseAnalogDataFormatUnsigned");
+                      (1, "AnalogDataFormatParserFunc parseAnalogDataFormatOnesComplement");
+                      (2, "AnalogDataFormatParserFunc parseAnalogDataFormatTwosComplement")]%string.
+Proof. exact tie_analog_parsers. Qed.
